@@ -125,12 +125,16 @@ func cmdCheck(args []string) int {
 	fs.StringVar(&o.only, "only", "", "only obligations whose name contains this")
 	fs.BoolVar(&o.showNotes, "notes", false, "print imprecision notes")
 	fs.BoolVar(&o.noReplay, "noreplay", false, "do not replay counterexamples against the real code")
+	fs.StringVar(&o.mutantTag, "scratch", "", "scratch run tag: no evidence file, separate out/replay directories (for runs against another tree)")
 	fs.Parse(args)
 	if s := os.Getenv("VERIF_SEED"); s != "" && o.seed == 0 {
 		o.seed, _ = strconv.Atoi(s)
 	}
 	if t := os.Getenv("VERIF_TIER"); t != "" && o.tier == "" {
 		o.tier = t
+	}
+	if o.mutantTag != "" {
+		o.noEvidence = true
 	}
 	out := runCheck(o)
 	return out.Exit
